@@ -152,12 +152,14 @@ func (ce *convergenceElem) activate() (successful, retry bool) {
 // deactivate marks this convergenceElem as deactivated. Both a new ttl as well
 // as whether Stop should be executed can be specified.
 func (ce *convergenceElem) deactivate(ttl int32) {
+	ce.mutex.Lock()
+	defer ce.mutex.Unlock()
+
+	// This is checked while holding the mutex; of two concurrent deactivations, e.g., an Unregister racing with the
+	// Manager's Close, only one may stop the CLA. The other one would close an already closed channel.
 	if !ce.isActive() {
 		return
 	}
-
-	ce.mutex.Lock()
-	defer ce.mutex.Unlock()
 
 	log.WithFields(log.Fields{
 		"cla": ce.conv,
